@@ -105,3 +105,92 @@ Proof.
   split; [reflexivity|]. split; [reflexivity|]. split; [|apply label_okb_ok; exact Hl].
   destruct (chk_sound t (2 * (isize (IOG id og body) + hsize (XH p lins)) + 8)) as (_ & Hs & _). apply Hs. exact Hb.
 Qed.
+
+(* ---------- well-formedness ---------- *)
+Lemma nodup_tax_NoDup l : nodup_tax l = true -> NoDup l.
+Proof.
+  induction l as [|x r IH]; simpl; [constructor|]. rewrite andb_true_iff, negb_true_iff. intros [Hx Hr].
+  constructor; [|apply IH; exact Hr]. intros Hin.
+  assert (mem_tax x r = true); [|congruence]. unfold mem_tax. apply existsb_exists. exists x. split; [exact Hin|apply taxon_eqb_refl].
+Qed.
+
+Theorem wfhb_sound t genes h : wfhb t genes h = true -> WFh t genes h.
+Proof.
+  induction h as [g p|p lins IH] using hist_ind'; intros H.
+  - cbn [wfhb] in H. apply andb_true_iff in H as [H1 H2]. apply opt_tax_eqb_eq in H1. split; assumption.
+  - cbn [wfhb] in H. apply andb_true_iff in H as [H Hall]. apply andb_true_iff in H as [H Hnd].
+    apply andb_true_iff in H as [H Hne]. apply andb_true_iff in H as [H Hl].
+    cbn [WFh]. split; [exact H|]. split; [apply negb_true_iff; exact Hl|]. split; [destruct lins; [discriminate|discriminate]|].
+    split; [apply nodup_tax_NoDup; exact Hnd|].
+    apply allP_Forall. rewrite Forall_forall in *. rewrite forallb_forall in Hall. intros l Hlin.
+    specialize (Hall l Hlin). apply andb_true_iff in Hall as [Hlne Hm].
+    split; [destruct l; [discriminate|discriminate]|]. apply allP_Forall. rewrite forallb_forall in Hm.
+    specialize (IH l Hlin). rewrite Forall_forall in *. intros c Hc. specialize (Hm c Hc).
+    repeat (apply andb_true_iff in Hm as [Hm ?]).
+    split; [apply (IH c Hc); exact Hm|]. split; [destruct (xtax c); [discriminate|discriminate]|].
+    split; [apply taxon_eqb_eq; assumption|apply taxon_eqb_eq; assumption].
+Qed.
+
+(* ---------- the whole document ---------- *)
+Lemma forall2b_sound {X Y} (f : X -> Y -> bool) (R : X -> Y -> Prop) :
+  (forall a b, f a b = true -> R a b) -> forall l1 l2, forall2b f l1 l2 = true -> Forall2 R l1 l2.
+Proof.
+  intros Hf. induction l1 as [|a r1 IH]; intros [|b r2] H; simpl in H; try discriminate; constructor.
+  - apply Hf. apply andb_true_iff in H as [H _]. exact H.
+  - apply IH. apply andb_true_iff in H as [_ H]. exact H.
+Qed.
+
+Lemma declared_of_eq d : declared_of d = declared d.
+Proof. reflexivity. Qed.
+
+Lemma find_gene_none genes g : ~ In g (map fst genes) -> find_gene g genes = None.
+Proof.
+  induction genes as [|[g' p] r IH]; intros H; simpl; [reflexivity|]. destruct (String.eqb g g') eqn:E.
+  - apply String.eqb_eq in E. subst. exfalso. apply H. left. reflexivity.
+  - apply IH. intros Hin. apply H. right. exact Hin.
+Qed.
+
+(* two gene tables for the same species section agree *)
+Lemma tables_unique t d genes genes' :
+  NoDup (declared d) ->
+  map fst genes = declared d ->
+  (forall g p, In (g, p) genes -> exists sp, In sp (d_species d) /\ In g (map gd_id (sp_genes sp)) /\ species_resolves t sp p) ->
+  map fst genes' = declared d ->
+  (forall g p, In (g, p) genes' -> exists sp, In sp (d_species d) /\ In g (map gd_id (sp_genes sp)) /\ species_resolves t sp p) ->
+  forall g, find_gene g genes' = find_gene g genes.
+Proof.
+  intros Hnd Hm Hr Hm' Hr' g.
+  assert (Hn : NoDup (map fst genes)) by (rewrite Hm; exact Hnd).
+  assert (Hn' : NoDup (map fst genes')) by (rewrite Hm'; exact Hnd).
+  destruct (in_dec string_dec g (declared d)) as [Hin|Hout].
+  - pose proof Hin as Hin'. rewrite <- Hm in Hin. rewrite <- Hm' in Hin'.
+    apply in_map_iff in Hin as ([g0 p] & Eg & Hgp). simpl in Eg. subst g0.
+    apply in_map_iff in Hin' as ([g0 p'] & Eg & Hgp'). simpl in Eg. subst g0.
+    destruct (Hr g p Hgp) as (sp & Hsp & Hg & (Hs & _)). destruct (Hr' g p' Hgp') as (sp' & Hsp' & Hg' & (Hs' & _)).
+    assert (sp = sp') by (eapply (unique_block (fun sp => map gd_id (sp_genes sp))); eauto). subst sp'.
+    rewrite Hs in Hs'. inversion Hs'; subst p'.
+    rewrite (proj2 (find_gene_in genes' g p Hn') Hgp'), (proj2 (find_gene_in genes g p Hn) Hgp). reflexivity.
+  - rewrite !find_gene_none; [reflexivity| |]; [rewrite Hm|rewrite Hm']; exact Hout.
+Qed.
+
+Theorem consistentb_sound t d hs : consistentb t d hs = true -> consistent t d hs.
+Proof.
+  unfold consistentb. intros H. repeat (apply andb_true_iff in H as [H ?]).
+  match goal with Hx : match gene_table t d with _ => _ end = true |- _ => rename Hx into Hwf end.
+  match goal with Hx : forall2b _ _ _ = true |- _ => rename Hx into Hsp end.
+  match goal with Hx : nodupb (flat_map refs_of _) = true |- _ => rename Hx into Hrefs end.
+  match goal with Hx : nodupb (declared_of d) = true |- _ => rename Hx into Hdecl end.
+  assert (Hsane : Forall (species_sane t) (d_species d)).
+  { apply Forall_forall. intros sp Hin. rewrite forallb_forall in H. specialize (H sp Hin). unfold species_saneb in H.
+    destruct (search t (sp_name sp)) as [|p [|q r]] eqn:Es; try discriminate. exists p. auto. }
+  assert (Hnd : NoDup (declared d)) by (apply nodupb_NoDup'; exact Hdecl).
+  split; [exact Hsane|]. split; [exact Hnd|]. split; [apply nodupb_NoDup'; exact Hrefs|].
+  split; [eapply forall2b_sound; [|exact Hsp]; intros a b; apply spells_topb_sound|].
+  intros genes' Hm' Hr'. unfold gene_table in Hwf.
+  destruct (foldM (fun acc sp => load_species t sp acc) (d_species d) [] init_state) as [[genes s0]|e] eqn:E0; [|discriminate].
+  pose proof (species_fold_spec t _ _ _ _ _ E0) as (I1 & _ & _ & I4). simpl in I1.
+  assert (I4' : forall g p, In (g, p) genes -> exists sp, In sp (d_species d) /\ In g (map gd_id (sp_genes sp)) /\ species_resolves t sp p).
+  { intros g p Hin. apply I4 in Hin as [[]|Hin]. exact Hin. }
+  apply Forall_forall. intros h Hh. rewrite forallb_forall in Hwf. specialize (Hwf h Hh). apply wfhb_sound in Hwf.
+  eapply (WFh_ext t genes genes'); [|exact Hwf]. intros g _. eapply tables_unique; eauto.
+Qed.
